@@ -124,6 +124,7 @@ fn type_has_infer(t: &Type) -> bool {
 fn base_k<'a, 'b>(k: &'b K<'a>) -> &'b K<'a> {
     match k {
         K::Then(_, _, k2) => base_k(k2),
+        K::Bind(_, _, _, _, k2) => base_k(k2),
         other => other,
     }
 }
@@ -230,6 +231,7 @@ impl<'u> Tr<'u> {
                 None => self.err(sp, "internal: state continuation without a threaded record"),
             },
             K::Then(rest, env2, k2) => self.block(rest, env2, k2),
+            K::Bind(..) => self.err(sp, "a block that should produce the value of a `let` ends without one"),
             K::Vars(names) => {
                 let tys: Vec<Ty> = names
                     .iter()
@@ -285,7 +287,26 @@ impl<'u> Tr<'u> {
                 };
                 let init = match &l.init {
                     Some(i) if i.diverge.is_none() => &*i.expr,
-                    Some(_) => return self.err(sp, "let-else"),
+                    Some(i) => {
+                        // `let PAT = e else { <diverges> };`: a match whose other arm is the else block (which leaves
+                        // the function / the loop turn: it never falls through)
+                        let (_, els) = i.diverge.as_ref().unwrap();
+                        let els_stmts: &[Stmt] = match &**els {
+                            Expr::Block(b) if b.label.is_none() => &b.block.stmts,
+                            _ => return self.err(sp, "let-else whose else part is not a block"),
+                        };
+                        let has_exit = contains_return_block(&Block { brace_token: Default::default(), stmts: els_stmts.to_vec() })
+                            || (env.loop_body && els_stmts.iter().any(|s| matches!(s, Stmt::Expr(e, _) if contains_continue_expr(e))));
+                        if !has_exit {
+                            return self.err(sp, "let-else whose else block does not end in `return` (or `continue` of a translated loop body)");
+                        }
+                        let (g, t) = self.expr(&i.expr, env, None)?;
+                        let mut env2 = env.clone();
+                        let pb = self.pattern(pat, &t, &mut env2)?;
+                        let (body, bt) = self.block(rest, &env2, k)?;
+                        let (eb, et) = self.block(els_stmts, env, k)?;
+                        return Ok((G::Match(Box::new(g), vec![(pb, body), ("_".into(), eb)]), pick_ty(bt, et)));
+                    }
                     None => return self.err(sp, "`let` without a value"),
                 };
                 let hint = match annot {
@@ -295,6 +316,14 @@ impl<'u> Tr<'u> {
                     None => None,
                 };
                 let mut env2 = env.clone();
+                if matches!(strip_refs(init), Expr::If(_) | Expr::Match(_) | Expr::Block(_)) && contains_return_expr(init) {
+                    // `let p = match .. { .. => v, .. => return r };`: the rest of the block follows every value leaf
+                    if !matches!(pat, Pat::Ident(_) | Pat::Wild(_) | Pat::Tuple(_)) {
+                        return self.err(sp, "unsupported pattern in `let`");
+                    }
+                    let kb = K::Bind(pat, env.clone(), hint.clone(), rest, k);
+                    return self.tail_bind(strip_refs(init), env, &kb);
+                }
                 if let Expr::Try(tr) = init {
                     // `let p = e?;`: the Err case leaves the function with the same error
                     let (g, t) = self.expr(&tr.expr, env, None)?;
@@ -393,6 +422,9 @@ impl<'u> Tr<'u> {
                     if let K::Value(h) = k {
                         return self.tail_value(e, env, h.as_ref());
                     }
+                    if let K::Bind(..) = k {
+                        return self.tail_bind(e, env, k);
+                    }
                     // `fn set_x(&mut self, ..) -> &mut Self { ..; self }`
                     if matches!(k, K::State) && env.mutating && is_self_path(e) {
                         return self.finish(env, k, e.span());
@@ -434,6 +466,41 @@ impl<'u> Tr<'u> {
             _ => {
                 let (g, t) = self.expr(e, env, hint)?;
                 Ok(self.leaf_wrap(env, g, t))
+            }
+        }
+    }
+
+    /// a leaf of the value of a `let` whose expression contains a `return` (see `K::Bind`)
+    fn tail_bind(&mut self, e: &Expr, env: &Env, kb: &K) -> R<(G, Ty)> {
+        match e {
+            Expr::Paren(p) => self.tail_bind(&p.expr, env, kb),
+            Expr::Group(p) => self.tail_bind(&p.expr, env, kb),
+            Expr::If(i) => self.build_if(i, env, &mut |tr, stmts, env2| tr.block(stmts, env2, kb)),
+            Expr::Match(m) => self.build_match(m, env, &mut |tr, body, env2| tr.tail_bind(body, env2, kb)),
+            Expr::Block(b) if b.label.is_none() => self.block(&b.block.stmts, env, kb),
+            Expr::Return(_) => self.tail_value(e, env, None),
+            _ => {
+                let (pat, env_let, hint, rest, k2) = match kb {
+                    K::Bind(p, el, h, r, k2) => (*p, el, h, *r, *k2),
+                    _ => return self.err(e.span(), "internal: tail_bind without a binding continuation"),
+                };
+                let (g, t) = self.expr(e, env, hint.as_ref())?;
+                let t = hint.clone().unwrap_or(t);
+                // a name the branch binds must not hide a name of the enclosing block that the rest may use
+                let mut bound = Vec::new();
+                pat_idents(pat, &mut bound);
+                for b in env.binds.iter().skip(env_let.binds.len()) {
+                    if !bound.contains(&b.rust) && env_let.lookup(&b.rust).is_some() {
+                        return self.err(e.span(), format!("`{}` bound inside the value of a `let` hides an outer binding", b.rust));
+                    }
+                }
+                let mut env2 = env_let.clone();
+                let binder = match pat {
+                    Pat::Tuple(_) => format!("'{}", self.pattern(pat, &t, &mut env2)?),
+                    _ => self.pattern(pat, &t, &mut env2)?,
+                };
+                let (body, bt) = self.block(rest, &env2, k2)?;
+                Ok((mk_let(binder, Box::new(g), Box::new(body)), bt))
             }
         }
     }
@@ -818,7 +885,11 @@ impl<'u> Tr<'u> {
             if ops.iter().any(|(_, k, _, _)| *k == key) {
                 continue;
             }
-            let pos = self.spec.opaque_calls.iter().position(|k| *k == key).unwrap_or(usize::MAX);
+            let pos = match key.strip_prefix("probe:") {
+                // probes come after the opaque calls, in the order of the spec's `probes` list
+                Some(pn) => self.spec.probes.iter().position(|p| p.name == pn).map(|i| self.spec.opaque_calls.len() + i).unwrap_or(usize::MAX - 1),
+                None => self.spec.opaque_calls.iter().position(|k| *k == key).unwrap_or(usize::MAX),
+            };
             ops.push((pos, key, n.clone(), t.clone()));
         }
         ops.sort_by_key(|(i, _, _, _)| *i);
